@@ -115,7 +115,20 @@ type rdScript struct {
 	lastFull   int
 	dirty      bool // the directory changed since the last rewind
 	mustRewind bool
+
+	// twin: a second descriptor of the same directory that receives exactly the
+	// successful calls of the script and none of the interleaved failing ones;
+	// both listings must stay identical (a failed call has no side effect).
+	twin     int32
+	passKind string // the one kind of failing call used in the current pass ("" = none yet)
+	pending  int    // failing calls issued since the last rewind
 }
+
+const (
+	offTwinBuf    = offDirBuf + 0x18000
+	offTwinResult = offResult + 16
+	badPointer    = 0xfffffff0
+)
 
 func (s *rdScript) logf(f string, a ...any) { s.log = append(s.log, fmt.Sprintf(f, a...)) }
 
@@ -205,6 +218,18 @@ func runReaddir(rc rdCase, engine int) *rdResult {
 		}
 		s.fd = int32(g.u32(offResult))
 	}
+	{
+		tp := s.sub
+		if tp == "" {
+			tp = "."
+		}
+		p, l := g.putPath(offPathA, tp)
+		if e := g.call("path_open", preopenFd, 0, p, l, oDIRECTORY, 0, 0, 0, offResult); e != 0 {
+			s.violate("setup:path_open-twin-failed", errName(e))
+			return res
+		}
+		s.twin = int32(g.u32(offResult))
+	}
 	s.run(rc)
 	sum := sha256.Sum256([]byte(strings.Join(s.log, "\n")))
 	res.Shape = hex.EncodeToString(sum[:8])
@@ -229,6 +254,7 @@ func (s *rdScript) resetPass() {
 	s.lastCookie, s.seqCookie = 0, 0
 	s.lastTail, s.lastFull = nil, 0
 	s.dirty, s.mustRewind = false, false
+	s.passKind, s.pending = "", 0
 }
 
 func (s *rdScript) run(rc rdCase) {
@@ -284,10 +310,31 @@ func (s *rdScript) run(rc rdCase) {
 		if drain {
 			bufLen = 4096
 		}
+		injected := false
+		if !first && !s.mustRewind && !drain && mutateAt != s.res.Calls && r.Chance(1, 4) {
+			injected = s.injectFailing()
+			if s.stop {
+				return
+			}
+		}
 		cookie := s.seqCookie
 		strat := "sequential"
 		x := r.Intn(100)
+		if injected && !s.mustRewind && r.Chance(3, 5) {
+			// continue from the earliest position that is still valid, or somewhere in the window
+			x = 72 + r.Intn(9) // reread-last
+			if r.Bool() {
+				x = 200
+			}
+		}
 		switch {
+		case x == 200:
+			var win []uint64
+			for k := range s.guaranteed {
+				win = append(win, k)
+			}
+			sort.Slice(win, func(i, j int) bool { return win[i] < win[j] })
+			cookie, strat = win[r.Intn(len(win))], "in-window"
 		case first:
 			first = false
 		case s.mustRewind:
@@ -437,6 +484,9 @@ func (s *rdScript) call(cookie uint64, bufLen uint32, strat string) bool {
 	if g.trap != "" {
 		s.logf("%s -> trap", desc)
 		s.violate("trap:"+strat, g.trap)
+		return false
+	}
+	if !s.compareTwin(desc, strat, errno, cookie, bufLen) {
 		return false
 	}
 	if strat == "never-returned" {
@@ -652,6 +702,143 @@ func (s *rdScript) verifyPass(desc string) bool {
 	s.res.Passes++
 	if len(nameless) > 0 {
 		s.res.Counts["passes-with-skipped-names"]++
+	}
+	return true
+}
+
+// compareTwin issues the same call on the twin descriptor and demands the same
+// answer (errno, bufused, bytes). The primary descriptor additionally received
+// failing calls; if they had no side effect the two listings cannot differ.
+func (s *rdScript) compareTwin(desc, strat string, errno uint32, cookie uint64, bufLen uint32) bool {
+	g := s.g
+	used := g.u32(offResult)
+	g.write(offTwinBuf, bytes.Repeat([]byte{0xa5}, int(bufLen)+32))
+	g.write(offTwinResult, []byte{0xee, 0xee, 0xee, 0xee})
+	te := g.call("fd_readdir", fdArg(s.twin), offTwinBuf, uint64(bufLen), cookie, offTwinResult)
+	s.res.Counts["twin-comparisons"]++
+	if g.trap != "" {
+		s.violate("trap:twin", g.trap)
+		return false
+	}
+	tused := g.u32(offTwinResult)
+	if strat == "never-returned" {
+		// unspecified cookie: answers are not compared; if either stream moved, both rewind
+		if te == 0 || errno == 0 {
+			s.mustRewind = true
+		}
+		return true
+	}
+	same := te == errno
+	if same && errno == 0 {
+		same = used == tused && used <= bufLen && bytes.Equal(g.read(offDirBuf, used), g.read(offTwinBuf, used))
+	}
+	if same {
+		if s.pending > 0 {
+			s.res.Counts["continuations-after-failing-calls-verified"]++
+		}
+		return true
+	}
+	show := func(e, u uint32, off uint32) string {
+		if e != 0 {
+			return errName(e)
+		}
+		ents, _, _ := parseDirents(g.read(off, min(u, bufLen)))
+		var names []string
+		for _, x := range ents {
+			names = append(names, fmt.Sprintf("%s→%d", trunc(x.name, 12), x.next))
+		}
+		return fmt.Sprintf("OK bufused=%d [%s]", u, strings.Join(names, " "))
+	}
+	s.logf("%s -> %s", desc, show(errno, used, offDirBuf))
+	s.logf("twin fd_readdir(%d,buf_len=%d,cookie=%d) -> %s", s.twin, bufLen, cookie, show(te, tused, offTwinBuf))
+	detail := fmt.Sprintf("%s answered %s, but the twin descriptor %d of the same directory, which got the same successful calls and none of the %d failing ones (%s) issued since the last rewind, answers %s",
+		desc, show(errno, used, offDirBuf), s.twin, s.pending, s.passKind, show(te, tused, offTwinBuf))
+	if s.pending > 0 {
+		s.violate("failed-call-changed-stream-position:"+s.passKind, detail)
+	} else {
+		s.violate("twin-listing-differs", detail)
+	}
+	return false
+}
+
+// injectFailing issues 1-3 calls of one kind that must fail, on the primary
+// descriptor only. A call that nevertheless succeeds is a successful call and
+// is repeated on the twin.
+func (s *rdScript) injectFailing() bool {
+	r, g := s.r, s.g
+	if s.passKind == "" {
+		// one kind per pass, so that a divergence names its cause. A pointer fault is
+		// detected after the stream was consulted, so it is mostly issued with the cookie
+		// of the last successful call, which cannot move the stream.
+		switch x := r.Intn(40); {
+		case x < 28:
+			s.passKind = "small-buf_len"
+		case x < 33:
+			s.passKind = "bad-buf-pointer"
+		case x < 38:
+			s.passKind = "bad-result-pointer"
+		case x < 39:
+			s.passKind = "bad-buf-pointer:cookie-elsewhere"
+		default:
+			s.passKind = "bad-result-pointer:cookie-elsewhere"
+		}
+	}
+	kind := s.passKind
+	maxKnown := uint64(0)
+	for _, k := range s.known {
+		if k > maxKnown {
+			maxKnown = k
+		}
+	}
+	for i, n := 0, 1+r.Intn(3); i < n; i++ {
+		var cookie uint64
+		cls := ""
+		switch x := r.Intn(10); {
+		case x < 2:
+			cookie, cls = 0, "zero"
+		case x < 4:
+			cookie, cls = s.seqCookie, "current"
+		case x < 6:
+			cookie, cls = s.known[r.Intn(len(s.known))], "earlier"
+		case x < 9:
+			cookie, cls = maxKnown, "latest"
+		default:
+			cookie, cls = []uint64{1 << 40, 1<<63 + 1, ^uint64(0)}[r.Intn(3)], "huge"
+		}
+		buf, bufLen, result := uint64(offDirBuf), uint64(24+r.Intn(200)), uint64(offResult)
+		switch {
+		case kind == "small-buf_len":
+			bufLen = uint64(r.Intn(24))
+		case strings.HasPrefix(kind, "bad-buf-pointer"):
+			buf = badPointer
+		default:
+			result = badPointer
+		}
+		if kind == "bad-buf-pointer" || kind == "bad-result-pointer" {
+			if s.lastCookie == 0 {
+				return i > 0 // cookie 0 is a rewind: it would move the stream
+			}
+			cookie, cls = s.lastCookie, "window-start"
+		} else if kind != "small-buf_len" && cls == "huge" {
+			cookie, cls = maxKnown, "latest" // a valid cookie
+		}
+		errno := g.call("fd_readdir", fdArg(s.fd), buf, bufLen, cookie, result)
+		s.res.Counts["failing-"+kind]++
+		s.res.Counts["failing-cookie-"+cls]++
+		s.logf("fd_readdir(%d,buf=%#x,buf_len=%d,cookie=%d,result=%#x) [must fail: %s, %s cookie] -> %s", s.fd, buf, bufLen, cookie, result, kind, cls, errName(errno))
+		if g.trap != "" {
+			s.violate("trap:failing-call:"+kind, g.trap)
+			return true
+		}
+		if errno == 0 {
+			// not a failed call after all (e.g. nothing to write at the end of the directory):
+			// a successful call, repeated on the twin; both start over
+			s.res.Counts["failing-call-succeeded"]++
+			g.call("fd_readdir", fdArg(s.twin), offTwinBuf, bufLen, cookie, offTwinResult)
+			s.mustRewind = true
+			return true
+		}
+		s.pending++
 	}
 	return true
 }
